@@ -2057,7 +2057,7 @@ End Proofs.
 Lemma rt_key_eqb_spec a b : rt_key_eqb a b = true <-> a = b.
 Proof.
   destruct a, b; cbn; try (split; [discriminate|congruence]).
-  - rewrite Nat.eqb_eq. split; congruence.
+  - rewrite andb_true_iff, !Nat.eqb_eq. split; [intros []; congruence|intros H; inversion H; auto].
   - rewrite andb_true_iff, !Nat.eqb_eq. split; [intros []; congruence|intros H; inversion H; auto].
   - rewrite Nat.eqb_eq. split; congruence.
 Qed.
@@ -2071,7 +2071,7 @@ Definition rt_entry_ok (dead : list nat) (owners : list (nat * nat * nat)) (e : 
   match re_key e with
   | KDict b c => re_sql e = (1, b, c)
   | KStr p => re_sql e = (2, p, 0)
-  | KAddr a => exists g mo, re_ref e = Some g /\ re_sql e = (0, mo, 0) /\ (rt_not_dead dead g -> In (a, g, mo) owners)
+  | KAddr a _ => exists g mo, re_ref e = Some g /\ re_sql e = (0, mo, 0) /\ (rt_not_dead dead g -> In (a, g, mo) owners)
   end.
 Definition rt_inv (m : list rt_entry) (dead : list nat) (owners : list (nat * nat * nat)) : Prop :=
   forall e, In e m -> rt_entry_ok dead owners e.
@@ -2093,13 +2093,13 @@ Qed.
 Lemma rt_step_good m dead owners ev :
   rt_inv m dead owners ->
   snd (rt_wf_step (owners, dead) ev) = true ->
-  let r := rt_step rt_good (m, dead) ev in
+  let r := rt_step rt_nofp (m, dead) ev in
   let w := fst (rt_wf_step (owners, dead) ev) in
   rt_inv (fst (fst r)) (snd (fst r)) (fst w) /\ snd (fst r) = snd w /\ rt_out_ok ev (snd r).
 Proof.
   intros Hinv Hwf. destruct ev as [s uc f|g0].
   - (* a call *)
-    set (k := rt_key_of rt_good s).
+    set (k := rt_key_of rt_nofp s).
     set (owners' := fst (fst (rt_wf_step (owners, dead) (RtCall s uc f)))).
     assert (Hsub : forall o, In o owners -> In o owners').
     { unfold owners'. destruct s; cbn; auto. }
@@ -2126,7 +2126,7 @@ Proof.
       rewrite Nat.eqb_refl in H2. cbn in H2. apply andb_true_iff in H2. destruct H2 as [_ H2]. apply Nat.eqb_eq in H2. subst m1.
       rewrite r2. reflexivity. }
     cbv zeta. rewrite Hd. fold owners'.
-    cbn [rt_step rt_good rp_flag_in_key rp_liveness_called andb]. fold k. fold fresh.
+    cbn [rt_step rt_nofp rp_flag_in_key rp_liveness_called rp_content_in_key andb]. fold k. fold fresh.
     assert (Hm3 : forall uc', rt_inv (fresh :: filter (fun e => negb (rt_match k f e)) m) dead owners' /\ dead = dead /\
                               rt_out_ok (RtCall s uc' f) (Some (rt_sql s, f, false))).
     { intros uc'. split; [exact Hmiss|split; [reflexivity|cbn; split; reflexivity]]. }
@@ -2143,15 +2143,15 @@ Qed.
 
 (* with the flag and the configure() values in the key and the weak reference really called, every call - cached or
    not, through any sequence of calls, deletions and address reuse - runs the SQL of its own settings and flag *)
-Theorem rt_transparent evs : forall m dead owners,
+Theorem rt_transparent_unmutated evs : forall m dead owners,
   rt_inv m dead owners -> rt_wf (owners, dead) evs = true ->
-  Forall2 rt_out_ok evs (rt_run rt_good (m, dead) evs).
+  Forall2 rt_out_ok evs (rt_run rt_nofp (m, dead) evs).
 Proof.
   induction evs as [|ev r IH]; intros m dead owners Hinv Hwf; [constructor|].
   cbn [rt_wf rt_run] in *.
   destruct (rt_wf_step (owners, dead) ev) as [[owners' dead'] ok] eqn:Ew. apply andb_true_iff in Hwf. destruct Hwf as [Hok Hr].
   pose proof (rt_step_good m dead owners ev Hinv) as H. rewrite Ew in H. cbn [fst snd] in H. specialize (H Hok).
-  destruct (rt_step rt_good (m, dead) ev) as [[m1 dead1] out] eqn:Es. cbn [fst snd] in H. destruct H as (I1 & Ed & Ho).
+  destruct (rt_step rt_nofp (m, dead) ev) as [[m1 dead1] out] eqn:Es. cbn [fst snd] in H. destruct H as (I1 & Ed & Ho).
   subst dead1. constructor; auto. eapply IH; eauto.
 Qed.
 
@@ -2160,4 +2160,36 @@ Proof.
   induction 1 as [|ev o r r' H _ IH]; [reflexivity|]. cbn. rewrite IH, andb_true_r.
   unfold rt_out_ok in H. unfold rt_out_okb. destruct (rt_expected ev) as [[q f]|]; destruct o as [[[q' f'] c]|]; try contradiction; auto.
   destruct H as [-> ->]. destruct q as [[a b] d]. cbn. rewrite !Nat.eqb_refl. destruct f; reflexivity.
+Qed.
+
+(* with a content fingerprint in the key of SettingsCreator objects the key determines the SQL: transparency needs no
+   assumption about the objects at all (mutation, address reuse, liveness) *)
+Definition rt_sql_of_key (k : rt_key) : sqlid :=
+  match k with KAddr _ m => (0, m, 0) | KDict b c => (1, b, c) | KStr p => (2, p, 0) end.
+Definition rt_inv_fp (m : list rt_entry) : Prop :=
+  forall e, In e m -> re_flag e = re_fkey e /\ re_sql e = rt_sql_of_key (re_key e).
+
+Theorem rt_transparent evs : forall m dead,
+  rt_inv_fp m -> Forall2 rt_out_ok evs (rt_run rt_good (m, dead) evs).
+Proof.
+  induction evs as [|ev r IH]; intros m dead Hinv; [constructor|].
+  cbn [rt_run]. destruct ev as [s uc f|g0].
+  - set (k := rt_key_of rt_good s).
+    assert (Hk : rt_sql_of_key k = rt_sql s) by (destruct s; reflexivity).
+    set (fresh := {| re_key := k; re_fkey := f; re_sql := rt_sql s; re_flag := f;
+                     re_ref := match s with RObj _ g _ => Some g | _ => None end |}).
+    assert (Hmiss : rt_inv_fp (fresh :: filter (fun e => negb (rt_match k f e)) m)).
+    { intros e [<-|Hin]; [split; [reflexivity|symmetry; exact Hk]|]. apply filter_In in Hin. apply Hinv. tauto. }
+    cbn [rt_step rt_good rp_flag_in_key rp_liveness_called rp_content_in_key andb]. fold k. fold fresh.
+    assert (Hm3 : forall dead', Forall2 rt_out_ok (RtCall s uc f :: r)
+              (Some (rt_sql s, f, false) :: rt_run rt_good (fresh :: filter (fun e => negb (rt_match k f e)) m, dead') r)).
+    { intros dead'. constructor; [cbn; split; reflexivity|apply IH; exact Hmiss]. }
+    destruct uc; [|apply Hm3].
+    destruct (rt_find m k f) as [e|] eqn:Ef; [|apply Hm3].
+    destruct (rt_dead dead e); [apply Hm3|].
+    unfold rt_find in Ef. apply find_some in Ef. destruct Ef as [Hin Hm]. unfold rt_match in Hm.
+    apply andb_true_iff in Hm. destruct Hm as [Hke Hfk]. apply rt_key_eqb_spec in Hke. apply Bool.eqb_prop in Hfk.
+    destruct (Hinv e Hin) as [Hfl Hsq]. constructor; [|apply IH; exact Hinv].
+    cbn. split; [rewrite Hsq, Hke; exact Hk|rewrite Hfl, Hfk; reflexivity].
+  - cbn. constructor; [exact Logic.I|apply IH; exact Hinv].
 Qed.
